@@ -139,6 +139,7 @@ bool isDecimalNumber(const std::string& s, char dec, char scientificNotation)
 
   std::size_t sepCount = 0;
   std::size_t sciCount = 0;
+  std::size_t mantissaDigits = 0;
   std::size_t i = 0;
   if (s[0] == '-')
     i = 1;
@@ -149,6 +150,8 @@ bool isDecimalNumber(const std::string& s, char dec, char scientificNotation)
       sepCount++;
     else if (c == scientificNotation)
     {
+      if (mantissaDigits == 0)
+        return false; // Must be at least one digit before the exponent.
       sciCount++;
       if (i == s.size() - 1)
         return false; // Must be sthg after scientific notation.
@@ -162,10 +165,12 @@ bool isDecimalNumber(const std::string& s, char dec, char scientificNotation)
     }
     else if (!isDecimalNumber(c))
       return false;
+    else if (sciCount == 0)
+      mantissaDigits++;
     if (sepCount > 1 || sciCount > 1)
       return false;
   }
-  return true;
+  return mantissaDigits > 0;
 }
 
 /******************************************************************************/
@@ -176,6 +181,7 @@ bool isDecimalInteger(const std::string& s, char scientificNotation)
     return false;
 
   std::size_t sciCount = 0;
+  std::size_t mantissaDigits = 0;
   std::size_t i = 0;
   if (s[0] == '-')
     i = 1;
@@ -184,6 +190,8 @@ bool isDecimalInteger(const std::string& s, char scientificNotation)
     char c = s[i];
     if (c == scientificNotation)
     {
+      if (mantissaDigits == 0)
+        return false; // Must be at least one digit before the exponent.
       sciCount++;
       if (i == s.size() - 1)
         return false; // Must be sthg after scientific notation.
@@ -197,10 +205,12 @@ bool isDecimalInteger(const std::string& s, char scientificNotation)
     }
     else if (!isDecimalNumber(c))
       return false;
+    else if (sciCount == 0)
+      mantissaDigits++;
     if (sciCount > 1)
       return false;
   }
-  return true;
+  return mantissaDigits > 0;
 }
 
 /******************************************************************************/
